@@ -139,6 +139,9 @@ func WorkerMain(t *testing.T, worlds map[string]*World) {
 	}
 	exec := func(tape *Tape) *Run {
 		r := Execute(t, tape, w.TraceCap, w.Run)
+		if r.WantGC {
+			runtime.GC()
+		}
 		if r.Viol != nil && w.Classify != nil {
 			w.Classify(r)
 		}
